@@ -101,6 +101,28 @@ def runCase (line : String) : IO PUnit := do
     for t in f.drop 3 do
       env ← histText id k cfg env (unhex t)
       k := k + 1
+  | "charclass" =>
+    let pre := unhex (f.getD 2 "-")
+    let suf := unhex (f.getD 3 "-")
+    let cfg := scanCfg 4
+    let hexn (n : Nat) : String := String.ofList (Nat.toDigits 16 n)
+    let mut runs : Array (String × Nat × Nat) := #[]
+    for cp in [0:0x110000] do
+      if cp < 0xD800 || cp > 0xDFFF then
+        let c := Char.ofNat cp
+        let sig : String := match scan cfg (pre ++ [c] ++ suf) with
+          | .ok toks => "+".intercalate (toks.map fun t =>
+              toString (tagCode t.tag) ++ "." ++ toString (if t.tag == .newline then 2 else t.lexeme.length) ++ "." ++ toString t.col)
+          | .bad e => "B" ++ toString e.line ++ "." ++ toString e.col ++ "." ++ (if e.ch == c then "c" else toString e.ch.toNat)
+          | .panic _ => "PANIC"
+          | .fuel => "FUEL"
+        match runs.back? with
+        | some (s0, lo, hi) =>
+          if s0 == sig && (hi + 1 == cp || (hi == 0xD7FF && cp == 0xE000)) then runs := runs.pop.push (s0, lo, cp)
+          else runs := runs.push (sig, cp, cp)
+        | none => runs := runs.push (sig, cp, cp)
+    lineOut id ("CHARCLASS " ++ toString runs.size ++ " " ++
+      ",".intercalate (runs.toList.map fun (s0, lo, hi) => s0 ++ ":" ++ hexn lo ++ "-" ++ hexn hi))
   | "print" => lineOut id ("PRINT " ++ hex (showValue (parseValueDesc (f.getD 2 ""))))
   | "fmt" =>
     match (f.getD 2 "").splitOn ":" with
